@@ -77,8 +77,13 @@ def run(tier, seed, replay=None):
                     if cdt != dt: guess = torchtt.TT([c.to(cdt) for c in guess.cores])
                     ops["guess"] = guess; snaps["guess"] = history.Snap(guess); desc["guess"] = kind
                 desc.update(eps=tol, preconditioner=prec)
-                q = torchtt.elementwise_divide(x, y, nswp=50, eps=tol, starting_tensor=guess, preconditioner=prec)
-                num = x.full()
+                if i % 7 == 3 and cdt == dt:          # the documented scalar numerator of elementwise_divide (float, int, one-element tensor)
+                    sv_ = rng.choice([2.0, -3, torch.tensor([1.5], dtype=dt)]); desc["scalar_numerator"] = str(sv_)
+                    q = torchtt.elementwise_divide(sv_, y, nswp=50, eps=tol, starting_tensor=guess, preconditioner=prec)
+                    num = torch.full(N, float(sv_), dtype=cdt); ops.pop("x", None); snaps.pop("x", None)
+                else:
+                    q = torchtt.elementwise_divide(x, y, nswp=50, eps=tol, starting_tensor=guess, preconditioner=prec)
+                    num = x.full()
         except Exception as ex:
             V.fail("%s raises %s" % (form, type(ex).__name__), dict(desc, exc=str(ex)[:200])); continue
         bad = solverkit.intact(snaps, list(ops.values()))
